@@ -339,7 +339,8 @@ func (f *file) ReadDir(n int) ([]hackpadfs.DirEntry, error) {
 	start, end := f.offset, f.offset+int64(n)
 	if n <= 0 {
 		start, end = 0, int64(len(dirNames))
-	} else if end > int64(len(dirNames)) {
+	} else if end > int64(len(dirNames)) || end < start {
+		// also covers offset+n overflowing for huge counts
 		end = int64(len(dirNames))
 	}
 	if n > 0 && start >= int64(len(dirNames)) {
